@@ -8,6 +8,8 @@ package rules
 //   V: VoteRule(view, ProposeMsg{Block, AggregateQC})       (what Voter.Verify does)
 //   C: Store(block); CommitRule(block)                      (what Committer.TryCommit does)
 //   S: Store(block)                                         (a block that arrived by a fetch)
+//   N: the sender's RequestBlock now finds exactly the given blocks (Get fetches and stores them)
+//   Q: which blocks are stored (Blockchain.LocalGet)
 // and records the return values and the lock (read from the unexported fields) after each event.
 // Every run is (1) emitted as a Gallina case that the Coq kernel replays on the model and
 // (2) judged by an independently written Go transcription of the published rules (refXxx below),
@@ -76,7 +78,8 @@ func (f *c04Forest) viewOf(i int) uint64 {
 }
 
 type c04Ev struct {
-	kind byte // 'V', 'C', 'S'
+	kind byte  // 'V', 'C', 'S', 'N' (the peers now have exactly the blocks in net), 'Q' (read the stored set)
+	net  []int // N
 	blk  int
 	view uint64 // V: the view argument
 	agg  int    // V: 0 = no AggregateQC, 1 = AggQC whose highest QC is the block's QC, k>=2 = AggQC whose highest QC certifies block k-2
@@ -94,24 +97,27 @@ func (e c04Ev) aggView(blockView uint64) uint64 {
 
 // ---------------------------------------------------------------- the code under test
 
-type c04Sender struct{}
+// c04Sender answers RequestBlock from the set of blocks the harness says the peers have.
+type c04Sender struct{ peers map[hotstuff.Hash]*hotstuff.Block }
 
-func (c04Sender) NewView(hotstuff.ID, hotstuff.SyncInfo) error { return nil }
-func (c04Sender) Vote(hotstuff.ID, hotstuff.PartialCert) error { return nil }
-func (c04Sender) Timeout(hotstuff.TimeoutMsg)                  {}
-func (c04Sender) Propose(*hotstuff.ProposeMsg)                 {}
-func (c04Sender) RequestBlock(context.Context, hotstuff.Hash) (*hotstuff.Block, bool) {
-	return nil, false
+func (*c04Sender) NewView(hotstuff.ID, hotstuff.SyncInfo) error { return nil }
+func (*c04Sender) Vote(hotstuff.ID, hotstuff.PartialCert) error { return nil }
+func (*c04Sender) Timeout(hotstuff.TimeoutMsg)                  {}
+func (*c04Sender) Propose(*hotstuff.ProposeMsg)                 {}
+func (s *c04Sender) RequestBlock(_ context.Context, h hotstuff.Hash) (*hotstuff.Block, bool) {
+	b, ok := s.peers[h]
+	return b, ok
 }
-func (s c04Sender) Sub([]hotstuff.ID) (core.Sender, error) { return s, nil }
+func (s *c04Sender) Sub([]hotstuff.ID) (core.Sender, error) { return s, nil }
 
 var c04Logger logging.Logger
 var c04Names = [3]string{"chained", "fast", "simple"}
 var c04Gallina = [3]string{"Chained", "Fast", "Simple"}
 
 type c04Runner struct {
-	rs    int
-	chain *blockchain.Blockchain
+	rs     int
+	sender *c04Sender
+	chain  *blockchain.Blockchain
 	ch    *ChainedHotStuff
 	fh    *FastHotStuff
 	sh    *SimpleHotStuff
@@ -123,9 +129,10 @@ func c04NewRunner(rs int) *c04Runner {
 		c04Logger = logging.New("verif")
 	}
 	el := eventloop.New(c04Logger, 16)
-	chain := blockchain.New(el, c04Logger, c04Sender{})
+	sender := &c04Sender{peers: map[hotstuff.Hash]*hotstuff.Block{}}
+	chain := blockchain.New(el, c04Logger, sender)
 	cfg := core.NewRuntimeConfig(1, nil, core.WithAggregateQC())
-	r := &c04Runner{rs: rs, chain: chain}
+	r := &c04Runner{rs: rs, chain: chain, sender: sender}
 	switch rs {
 	case 0:
 		r.ch = NewChainedHotStuff(c04Logger, cfg, chain)
@@ -172,7 +179,9 @@ func (r *c04Runner) commit(b *hotstuff.Block) (res *hotstuff.Block, panicked any
 
 // ---------------------------------------------------------------- the published rules (reference)
 
-// refState is the reference's own picture of what the replica knows: indices into the forest.
+// refState is the reference's picture of the blocks AVAILABLE to the replica when a rule is
+// consulted (stored, as reported by Blockchain.LocalGet, or obtainable from a peer): indices
+// into the forest.  The published rules are judged on the available blocks.
 type refState struct {
 	f     *c04Forest
 	known map[int]bool
@@ -186,6 +195,13 @@ func (s *refState) certified(c int) (int, bool) {
 		return 0, false
 	}
 	return q, true
+}
+
+// the block the lock must move to when a block certifying qb is processed is available
+// (qb carrying the zero-hash placeholder certificate has no lock target)
+func (s *refState) lockTargetAvailable(qb int) bool {
+	t := s.f.blocks[qb].qc
+	return t == c04Zero || s.known[t]
 }
 
 func (s *refState) direct(c, b int) bool { return s.f.blocks[c].parent == b }
@@ -217,7 +233,10 @@ func (s *refState) extends(b, target int) (ext, tree bool) {
 func (s *refState) voteRule(rs int, cur uint64, blk int, agg int, aggView uint64) (vote, exact bool) {
 	b := s.f.blocks[blk]
 	switch rs {
-	case 0: // safeNode: liveness or safety
+	case 0: // no vote when the lock target is missing; else safeNode: liveness or safety
+		if q := b.qc; q != c04Zero && s.known[q] && !s.lockTargetAvailable(q) {
+			return false, true
+		}
 		if q := b.qc; q != c04Zero && s.known[q] && s.f.blocks[q].view > s.f.blocks[s.lock].view {
 			return true, true
 		}
@@ -246,7 +265,7 @@ func (s *refState) voteRule(rs int, cur uint64, blk int, agg int, aggView uint64
 			return false, true
 		}
 		q := b.qc
-		if q == c04Zero || !s.known[q] {
+		if q == c04Zero || !s.known[q] || !s.lockTargetAvailable(q) {
 			return false, true
 		}
 		return s.f.blocks[s.lock].view <= s.f.blocks[q].view, true
@@ -385,10 +404,54 @@ func c04Execute(v *verifOut, s *verifStream, run c04Run, rs int) {
 			}(),
 		})
 	}
+	peers := map[int]bool{}
+	usesNet := false
+	for _, e := range run.evs {
+		if e.kind == 'N' || e.kind == 'Q' {
+			usesNet = true
+		}
+	}
+	if usesNet {
+		v.Count("runs_with_fetching")
+	}
+	// what is available right now: stored (LocalGet) or obtainable from a peer
+	snapshot := func() {
+		ref.known = map[int]bool{}
+		for i, b := range f.blocks {
+			if _, ok := r.chain.LocalGet(b.b.Hash()); ok || peers[i] {
+				ref.known[i] = true
+			}
+		}
+	}
 	for step, e := range run.evs {
 		blk := f.blocks[e.blk]
 		switch e.kind {
+		case 'N':
+			peers = map[int]bool{}
+			r.sender.peers = map[hotstuff.Hash]*hotstuff.Block{}
+			var bs []string
+			var names []any
+			for _, i := range e.net {
+				peers[i] = true
+				r.sender.peers[f.blocks[i].b.Hash()] = f.blocks[i].b
+				bs = append(bs, in.block(f.blocks[i].b))
+				names = append(names, f.describe(i)["block"])
+			}
+			terms = append(terms, "N "+gList(bs))
+			trace = append(trace, map[string]any{"event": "peers now have", "blocks": names})
+		case 'Q':
+			var hs []string
+			var names []any
+			for i, b := range f.blocks {
+				if _, ok := r.chain.LocalGet(b.b.Hash()); ok {
+					hs = append(hs, fmt.Sprint(in.id(b.b.Hash())))
+					names = append(names, f.describe(i)["block"])
+				}
+			}
+			terms = append(terms, "Q "+gList(hs))
+			trace = append(trace, map[string]any{"event": "stored blocks", "blocks": names})
 		case 'V':
+			snapshot()
 			p := hotstuff.ProposeMsg{ID: 1, Block: blk.b}
 			aggTerm := "None"
 			aggView := uint64(0)
@@ -442,6 +505,7 @@ func c04Execute(v *verifOut, s *verifStream, run c04Run, rs int) {
 				v.Count("vote_sound_only(not a block tree)")
 			}
 		case 'C':
+			snapshot()
 			got, pan := r.commit(blk.b)
 			ref.known[e.blk] = true
 			lockBefore := ref.lock
@@ -504,7 +568,6 @@ func c04Execute(v *verifOut, s *verifStream, run c04Run, rs int) {
 			}
 		case 'S':
 			r.chain.Store(blk.b)
-			ref.known[e.blk] = true
 			terms = append(terms, "S "+in.block(blk.b))
 			trace = append(trace, map[string]any{"event": "Store", "block": f.describe(e.blk)})
 		}
@@ -763,6 +826,59 @@ func c04Fork(v *verifOut, s *verifStream) {
 	}
 }
 
+// stream "locktarget": a chain B1..Bm and a proposal P certifying Bm (or B(m-1)); every block of the
+// chain is independently presented / stored by fetch / only obtainable from a peer / missing, and Bm
+// may carry the zero-hash certificate: in particular the QC block is present while the block its QC
+// certifies (the block the lock must move to) is missing, fetchable or absent by construction.
+// P is judged, the stored set is read, P is processed, then the peers go away and P is judged again.
+func c04LockTarget(v *verifOut, s *verifStream) {
+	for m := 2; m <= 4; m++ {
+		total := 1
+		for i := 0; i < m; i++ {
+			total *= 4
+		}
+		for code := 0; code < total; code++ {
+			for variant := 0; variant < 4; variant++ {
+				pOnPrev := variant&1 == 1  // P certifies B(m-1) instead of Bm
+				tipZero := variant&2 == 2  // Bm carries the zero-hash certificate
+				f := c04NewForest()
+				for i := 1; i <= m; i++ {
+					qc := i - 1
+					if i == m && tipZero {
+						qc = c04Zero
+					}
+					f.add(i-1, qc, uint64(i), f.viewOf(qc))
+				}
+				q := m
+				if pOnPrev {
+					q = m - 1
+				}
+				p := f.add(q, q, uint64(m)+1, f.viewOf(q))
+				var evs []c04Ev
+				var net []int
+				c := code
+				for i := 1; i <= m; i++ {
+					switch c % 4 {
+					case 0:
+						evs = append(evs, c04Ev{kind: 'C', blk: i})
+					case 1:
+						evs = append(evs, c04Ev{kind: 'S', blk: i})
+					case 2:
+						net = append(net, i)
+					}
+					c /= 4
+				}
+				evs = append(evs, c04Ev{kind: 'N', net: net}, c04Ev{kind: 'Q'},
+					c04Ev{kind: 'V', blk: p, view: uint64(m) + 1}, c04Ev{kind: 'Q'},
+					c04Ev{kind: 'V', blk: p, view: uint64(m) + 1, agg: 1}, c04Ev{kind: 'Q'},
+					c04Ev{kind: 'C', blk: p}, c04Ev{kind: 'Q'},
+					c04Ev{kind: 'N'}, c04Ev{kind: 'V', blk: p, view: uint64(m) + 1}, c04Ev{kind: 'Q'})
+				c04ExecuteAll(v, s, c04Run{stream: "locktarget", forest: f, evs: evs})
+			}
+		}
+	}
+}
+
 // stream "random": forests of 4..14 blocks, mostly chain-like with forks, gaps, equal views,
 // certificates off the parent, relabelled certificates, zero hashes; orders from creation order to
 // arbitrary, with holes, fetched blocks, repeated presentations and varied view arguments.
@@ -831,7 +947,30 @@ func c04RandomEvents(v *verifOut, f *c04Forest) []c04Ev {
 		}
 	}
 	var evs []c04Ev
+	withNet := rng.Intn(3) == 0 // a third of the runs: peers can supply some blocks, and this changes
+	randomNet := func() c04Ev {
+		var net []int
+		for i := 1; i <= n; i++ {
+			if rng.Intn(3) == 0 {
+				net = append(net, i)
+			}
+		}
+		return c04Ev{kind: 'N', net: net}
+	}
+	if withNet {
+		evs = append(evs, randomNet())
+	}
 	for _, i := range order {
+		if withNet {
+			switch rng.Intn(8) {
+			case 0:
+				evs = append(evs, randomNet())
+			case 1:
+				evs = append(evs, c04Ev{kind: 'N'})
+			case 2, 3:
+				evs = append(evs, c04Ev{kind: 'Q'})
+			}
+		}
 		x := rng.Intn(100)
 		switch {
 		case x < 7: // hole: never stored
@@ -875,6 +1014,9 @@ func c04RandomEvents(v *verifOut, f *c04Forest) []c04Ev {
 		if x < 19 { // presented twice
 			evs = append(evs, c04Ev{kind: 'V', blk: i, view: f.blocks[i].view}, c04Ev{kind: 'C', blk: i})
 		}
+	}
+	if withNet {
+		evs = append(evs, c04Ev{kind: 'Q'})
 	}
 	return evs
 }
@@ -942,6 +1084,7 @@ func TestVerifC04(t *testing.T) {
 	c04Tiny(v, s)
 	c04Chain(v, s)
 	c04Fork(v, s)
+	c04LockTarget(v, s)
 	c04Random(v, s)
 	c04Boundary(v, s)
 }
